@@ -57,7 +57,8 @@ Record jcfg := mkCfg {
   cfg_mono_div : Z;                     (* `mu as f64 / 1000000.0` *)
   cfg_mono_width : nat; cfg_mono_prec : nat;   (* format!("{:>12.6}", mud) *)
   cfg_mono_blank : bytes;               (* "[            ]" *)
-  cfg_mono_needs_host : bool            (* does get_monotonic_usec call sd_id128_get_boot (the HOST's boot id) first? *)
+  cfg_mono_needs_host : bool;           (* does get_monotonic_usec call sd_id128_get_boot (the HOST's boot id) first? *)
+  cfg_verbose_multi : bool              (* does next_verbose keep every data object (Vec) or one value per name (HashMap)? *)
 }.
 
 (* what one run adds to the entry: the zone of --tz-offset and one bit of the HOST.
@@ -303,22 +304,28 @@ Definition vfield (cfg : jcfg) (d : bytes) : bytes * bytes :=
   let '(k, v) := vkv d in
   (k, if beqb k (cfg_k_selinux cfg) then rtrim (cfg_trim cfg) v else v).
 
-(* HashMap<&[u8], &[u8]> as an association list with unique keys *)
+(* the collection `fields` of next_verbose as a list of (name, value):
+   [cfg_verbose_multi] = false: a HashMap<&[u8], &[u8]> (insert replaces the value of an existing name; unique names);
+   [cfg_verbose_multi] = true : a Vec<(&[u8], &[u8])> (push keeps every data object, in enumeration order) *)
 Fixpoint vm_insert (k v : bytes) (m : list field) : list field :=
   match m with
   | [] => [(k, v)]
   | (k', v') :: r => if beqb k k' then (k, v) :: r else (k', v') :: vm_insert k v r
   end.
-Fixpoint vm_remove (k : bytes) (m : list field) : option bytes * list field :=
+Definition vm_put (multi : bool) (k v : bytes) (m : list field) : list field :=
+  if multi then m ++ [(k, v)] else vm_insert k v m.
+(* remove every binding of name k: its values in order, and what is left (HashMap::remove on unique
+   names: at most one value) *)
+Fixpoint vm_take (k : bytes) (m : list field) : list bytes * list field :=
   match m with
-  | [] => (None, [])
-  | (k', v') :: r => if beqb k k' then (Some v', r)
-                     else let '(o, r') := vm_remove k r in (o, (k', v') :: r')
+  | [] => ([], [])
+  | (k', v') :: r => let '(vs, r') := vm_take k r in
+                     if beqb k k' then (v' :: vs, r') else (vs, (k', v') :: r')
   end.
 Definition vm_mem (k : bytes) (m : list field) : bool := is_some (assoc k m).
 
 Definition vm_of (cfg : jcfg) (ds : list bytes) : list field :=
-  fold_left (fun m d => let '(k, v) := vfield cfg d in vm_insert k v m) ds [].
+  fold_left (fun m d => let '(k, v) := vfield cfg d in vm_put (cfg_verbose_multi cfg) k v m) ds [].
 
 (* Ord of &[u8] (lexicographic, unsigned bytes) and of the (key, value) tuple *)
 Fixpoint bytes_cmp (a b : bytes) : comparison :=
@@ -343,32 +350,33 @@ Definition sort_fields (l : list field) : list field := fold_right insert_sorted
 
 Definition vline (cfg : jcfg) (k v : bytes) : bytes := cfg_field_beg cfg ++ k ++ EQ :: v ++ [NL].
 
+Definition vlines (cfg : jcfg) (k : bytes) (vs : list bytes) : bytes := concat (map (vline cfg k) vs).
+
 (* `for field in FIELD_ORDER_VERBOSE { fields.remove(field) ... }` : lines written, what is left *)
 Fixpoint take_ordered (cfg : jcfg) (order : list bytes) (m : list field) : bytes * list field :=
   match order with
   | [] => ([], m)
   | k :: r =>
-    match vm_remove k m with
-    | (Some v, m') => let '(out, m'') := take_ordered cfg r m' in (vline cfg k v ++ out, m'')
-    | (None, _) => take_ordered cfg r m
-    end
+    let '(vs, m') := vm_take k m in
+    let '(out, m'') := take_ordered cfg r m' in
+    (vlines cfg k vs ++ out, m'')
   end.
 
-(* the map after the enumeration and the __MONOTONIC_TIMESTAMP insertion *)
+(* the collection after the enumeration and the __MONOTONIC_TIMESTAMP insertion *)
 Definition verbose_map (cfg : jcfg) (ev : env) (e : entry) : list field :=
   let m := vm_of cfg (firstn (cfg_emerg_verbose cfg) (raw_data e)) in
   if vm_mem (cfg_k_mono cfg) m then m
   else match mono_usec cfg ev e with
-       | Some mu => vm_insert (cfg_k_mono cfg) (dec mu) m
+       | Some mu => vm_put (cfg_verbose_multi cfg) (cfg_k_mono cfg) (dec mu) m
        | None => m
        end.
 
 Definition verbose_body (cfg : jcfg) (m : list field) : bytes :=
-  let '(src, m1) := vm_remove (cfg_k_source_rt cfg) m in
+  let '(src, m1) := vm_take (cfg_k_source_rt cfg) m in
   let '(out, m2) := take_ordered cfg (cfg_order cfg) m1 in
   out
   ++ concat (map (fun f => vline cfg (fst f) (snd f)) (sort_fields m2))
-  ++ match src with Some s => vline cfg (cfg_k_source_rt cfg) s | None => [] end.
+  ++ vlines cfg (cfg_k_source_rt cfg) src.
 
 Definition render_verbose (cfg : jcfg) (ev : env) (e : entry) : option bytes :=
   match entry_dt_text cfg ev (cfg_fmt_verbose cfg) e with
@@ -465,13 +473,17 @@ Definition is_cat (d : dispatch) : bool := match d with DCat => true | _ => fals
 (* [a] occurs in [b] as a contiguous block *)
 Definition infix (a b : bytes) : Prop := exists p s, b = p ++ a ++ s.
 
-(* the configuration with / without the call of sd_id128_get_boot in get_monotonic_usec *)
-Definition set_needs_host (b : bool) (cfg : jcfg) : jcfg :=
-  mkCfg (cfg_override cfg) (cfg_dispatch cfg) (cfg_fmt_verbose cfg) (cfg_order cfg) (cfg_field_beg cfg)
+(* the configuration with / without the call of sd_id128_get_boot in get_monotonic_usec, with a HashMap / a Vec
+   in next_verbose, with another order table *)
+Definition set_flags (host multi : bool) (order : list bytes) (cfg : jcfg) : jcfg :=
+  mkCfg (cfg_override cfg) (cfg_dispatch cfg) (cfg_fmt_verbose cfg) order (cfg_field_beg cfg)
         (cfg_emerg_short cfg) (cfg_emerg_verbose cfg) (cfg_emerg_export cfg)
         (cfg_k_host cfg) (cfg_k_ident cfg) (cfg_k_spid cfg) (cfg_k_comm cfg) (cfg_k_pid cfg) (cfg_k_msg cfg)
         (cfg_short_need cfg) (cfg_k_selinux cfg) (cfg_trim cfg) (cfg_k_source_rt cfg) (cfg_k_mono cfg) (cfg_k_cat cfg)
-        (cfg_mono_div cfg) (cfg_mono_width cfg) (cfg_mono_prec cfg) (cfg_mono_blank cfg) b.
+        (cfg_mono_div cfg) (cfg_mono_width cfg) (cfg_mono_prec cfg) (cfg_mono_blank cfg) host multi.
+Definition set_needs_host (b : bool) (cfg : jcfg) : jcfg := set_flags b (cfg_verbose_multi cfg) (cfg_order cfg) cfg.
+Definition set_verbose_multi (b : bool) (cfg : jcfg) : jcfg := set_flags (cfg_mono_needs_host cfg) b (cfg_order cfg) cfg.
+Definition set_order (o : list bytes) (cfg : jcfg) : jcfg := set_flags (cfg_mono_needs_host cfg) (cfg_verbose_multi cfg) o cfg.
 
 (* boolean test of [infix] *)
 Fixpoint prefixb (a b : bytes) : bool :=
